@@ -32,10 +32,43 @@ func tokensSubset(a, b map[string]bool) bool {
 	return true
 }
 
+func isEnvelopeBuilder(callee *ssa.Function) bool {
+	r := callee.Signature.Results()
+	return r.Len() >= 2 && namedName(r.At(0).Type()) == "Envelope"
+}
+
+// publishHandlerView: the handler with the helpers on the way to the enqueue step or to the envelope builder expanded;
+// the builder itself and every other callee (duplicate lookup, response writers) stay calls — the rules find them by role.
+func publishHandlerView(p *Program, f *ssa.Function) *ssa.Function {
+	f = p.Orig(f)
+	direct := len(allCalls(f, isBatchEnqueue)) > 0 && len(allCalls(f, func(ci ssa.CallInstruction) bool {
+		g := ci.Common().StaticCallee()
+		return g != nil && isEnvelopeBuilder(g)
+	})) > 0
+	if direct {
+		return f
+	}
+	return p.ViewKeeping(f, func(callee *ssa.Function) bool {
+		if isEnvelopeBuilder(callee) {
+			return true
+		}
+		if len(allCalls(p.View(callee), isAnyEnqueue)) > 0 {
+			return false
+		}
+		for g := range p.Reach(callee) {
+			if g != p.Orig(callee) && isEnvelopeBuilder(g) {
+				return false
+			}
+		}
+		return true
+	})
+}
+
 func publishHandlers(p *Program) []*ssa.Function {
-	// the innermost functions of package admin that answer a request (they take the http.ResponseWriter) and hand a
-	// batch to the store — seen on their inlined views, so that the enqueue step may sit in an unexported helper of
-	// the package. A function that only dispatches to another such function is not a handler.
+	// the innermost functions of package admin that answer a request (they take the http.ResponseWriter), build the
+	// envelopes and hand the batch to the store — each step possibly through unexported helpers of the package. A
+	// function that only dispatches to another such function is not a handler, and a helper that performs one of the
+	// steps (the enqueue with its error mapping, the preflight) is part of its callers.
 	takesWriter := func(f *ssa.Function) bool {
 		for _, q := range f.Params {
 			if namedName(q.Type()) == "ResponseWriter" && namedPkgPath(q.Type()) == "net/http" {
@@ -50,7 +83,15 @@ func publishHandlers(p *Program) []*ssa.Function {
 		if fn.Parent() != nil || !takesWriter(fn) {
 			continue
 		}
-		if len(allCalls(p.View(fn), isBatchEnqueue)) > 0 {
+		if len(allCalls(p.View(fn), isBatchEnqueue)) == 0 {
+			continue
+		}
+		v := publishHandlerView(p, fn)
+		hasB := len(allCalls(v, func(ci ssa.CallInstruction) bool {
+			g := ci.Common().StaticCallee()
+			return g != nil && isEnvelopeBuilder(g)
+		})) > 0
+		if hasB && len(allCalls(v, isBatchEnqueue)) > 0 {
 			qual[p.Orig(fn)] = true
 			cands = append(cands, fn)
 		}
@@ -91,15 +132,7 @@ func checkC15(c *Ctx) {
 	checkReloadRederives(c, "C15.R10", reloadEntries(c.P))
 	var hs []*ssa.Function
 	for _, f := range publishHandlers(p) {
-		if len(allCalls(f, isBatchEnqueue)) > 0 {
-			hs = append(hs, f)
-			continue
-		}
-		// the enqueue step sits in a helper: the handler with exactly the helpers on the way to the enqueue expanded
-		// (every other call — builder, duplicate lookup, response writers — stays a call, the rules find them by role)
-		hs = append(hs, p.ViewKeeping(f, func(callee *ssa.Function) bool {
-			return len(allCalls(p.View(callee), isAnyEnqueue)) == 0
-		}))
+		hs = append(hs, publishHandlerView(p, f))
 	}
 	c.Floor("C15.R1", "publish_handlers", len(hs), 2)
 	var builder *ssa.Function
